@@ -61,7 +61,7 @@ def classRules (st : Static) : List Rule → Ctx → M (Ctx × List Rule)
       let c ←
         if wantsTrust rule c.req && !(trustName c.req).isEmpty then trustUsername st c (trustName c.req)
         else pure c
-      let c := updReq c fun r => { r with cls := strlcpy63 (rule.cls.getD rule.name) }
+      let c := updReq c fun r => { r with cls := strlcpyN c.lim.cls (rule.cls.getD rule.name) }
       pure (c, { rule with assigned := rule.assigned + 1 } :: rest)
     else do
       let (c, rest') ← classRules st rest c
@@ -108,13 +108,13 @@ def gate (st : Static) (c : Ctx) : M Ctx :=
 /-! ### xquery: sending queries -/
 
 /-- user name as `iauth_xquery_check` builds it -/
-def xqUsername (r : Req) : Bytes :=
+def xqUsername (lim : Limits) (r : Req) : Bytes :=
   let u :=
-    if !r.authUser.isEmpty then strncpyN 11 r.authUser
-    else if r.cliUser.head? == some 126 then strncpyN 11 r.cliUser
-    else if !r.cliUser.isEmpty then 126 :: strncpyN 11 r.cliUser
+    if !r.authUser.isEmpty then strncpyN (lim.user + 1) r.authUser
+    else if r.cliUser.head? == some 126 then strncpyN (lim.user + 1) r.cliUser
+    else if !r.cliUser.isEmpty then 126 :: strncpyN (lim.user + 1) r.cliUser
     else []
-  u.take 10
+  u.take lim.user
 
 def xqHostname (r : Req) : Bytes := if r.hostname.isEmpty then r.textAddr else r.hostname
 
@@ -126,11 +126,11 @@ def xqEligible (isPassword : Bool) (srv : Svc) (cli : XqCli) (i : Nat) (flags : 
   && srv.ty.prereq.subset flags                                           -- necessary information present
 
 /-- the X lines one eligible service gets (CHECK and/or LOGIN / LOGIN2) -/
-def xqQueryLines (srv : Svc) (cli : XqCli) (r : Req) : List Bytes :=
+def xqQueryLines (lim : Limits) (srv : Svc) (cli : XqCli) (r : Req) : List Bytes :=
   let tag := routing r
   -- the user name is only computed when some non-LOGIN service needs it; it is a function
   -- of the request, so computing it per service is the same
-  let user := if srv.ty != .login then xqUsername r else []
+  let user := if srv.ty != .login then xqUsername lim r else []
   let host := xqHostname r
   (if srv.ty == .dronecheck || srv.ty == .combined then
      [xquery srv.name tag (b "CHECK " ++ r.nick ++ sp ++ user ++ sp ++ r.textAddr ++ sp ++ host ++ b " :" ++ r.real)]
@@ -154,7 +154,7 @@ def xqCheckSlot (isPassword : Bool) (c : Ctx) (cli : XqCli) (i : Nat) : Ctx × X
   | some srv =>
     if !xqEligible isPassword srv cli i c.req.flags then (c, cli)
     else
-      let c := { c with out := c.out ++ xqQueryLines srv cli c.req }
+      let c := { c with out := c.out ++ xqQueryLines c.lim srv cli c.req }
       (xqTake c srv cli i, { cli with ref := maskAdd cli.ref i, sent := maskAdd cli.sent i })
 
 def xqCheckLoop (isPassword : Bool) : List Nat → Ctx → XqCli → Ctx × XqCli
@@ -254,7 +254,7 @@ def xqPassword (c : Ctx) (pw : Option Bytes) : M Ctx :=
 /-! ### xquery: replies -/
 
 /-- `iauth_xquery_set_account` -/
-def setAccount (text : Bytes) : Bytes := (text.takeWhile (· != 32)).take 64
+def setAccount (lim : Limits) (text : Bytes) : Bytes := (text.takeWhile (· != 32)).take lim.account
 
 def findRefSlot (svcs : List (Option Svc)) (cli : XqCli) (service : Bytes) : Option (Nat × Svc) :=
   let rec go : Nat → List (Option Svc) → Option (Nat × Svc)
@@ -289,7 +289,7 @@ def okStamp (rep : Bytes) : Option (Option Bytes) :=
 /-- `OK <account>` from a login-capable service: stamp, release the +! hold once, +x -/
 def xqVouch (c : Ctx) (cli : XqCli) (stamp : Bytes) : Ctx :=
   let hadAccount := !c.req.account.isEmpty
-  let c := updReq c fun r => { r with account := setAccount stamp }
+  let c := updReq c fun r => { r with account := setAccount c.lim stamp }
   let c := if cli.modeBang && !hadAccount then updReq c fun r => { r with holds := r.holds - 1 } else c
   if cli.modeX || cli.modeBang then c.emit (sendReq c.req (b "M") (b " :+x")) else c
 
@@ -349,7 +349,7 @@ def reqEvent (st : Static) (c : Ctx) : Ev → M Ctx
     else match h with
       | none => throw (.nullDeref "parse_hostname: strncpy(hostname, NULL)")
       | some h =>
-        let c := updReq c fun r => { r with hostname := strncpyN 63 h, flags := { r.flags with gotHost := true } }
+        let c := updReq c fun r => { r with hostname := strncpyN c.lim.host h, flags := { r.flags with gotHost := true } }
         gate st (fieldChange st false c)
   | .noHostname =>
     let c := updReq c fun r => { r with flags := { r.flags with gotHost := true } }
@@ -362,12 +362,12 @@ def reqEvent (st : Static) (c : Ctx) : Ev → M Ctx
     let c := updReq c fun r =>
       let f := { r.flags with gotUser := true }
       let f := if f.emptyIdent then { f with gotIdent := true } else f
-      { r with cliUser := strncpyN 10 user, real := strncpyN 50 real, flags := f }
+      { r with cliUser := strncpyN c.lim.user user, real := strncpyN c.lim.real real, flags := f }
     gate st (fieldChange st false c)
   | .ident i =>
     let c := updReq c fun r =>
       match i with
-      | some i => { r with authUser := strncpyN 10 i, flags := { r.flags with gotIdent := true } }
+      | some i => { r with authUser := strncpyN c.lim.user i, flags := { r.flags with gotIdent := true } }
       | none =>
         if !r.cliUser.isEmpty then { r with flags := { r.flags with gotIdent := true } }
         else { r with flags := { r.flags with emptyIdent := true } }
@@ -376,7 +376,7 @@ def reqEvent (st : Static) (c : Ctx) : Ev → M Ctx
     match n with
     | none => throw (.nullDeref "parse_nick: strncpy(nickname, NULL)")
     | some n =>
-      let c := updReq c fun r => { r with nick := strncpyN 30 n, flags := { r.flags with gotNick := true } }
+      let c := updReq c fun r => { r with nick := strncpyN c.lim.nick n, flags := { r.flags with gotNick := true } }
       gate st (fieldChange st false c)
   | .hurry =>
     let c := updReq c fun r => { r with flags := { (r.flags.or st.need) with gotHurry := true } }
